@@ -31,6 +31,8 @@ bEI == <<69, 73>>
 bL == <<76>>
 bLength == <<76, 101, 110, 103, 116, 104>>
 CS == {"ContentStream"}
+bRaw == <<37, 114, 97, 119, 37>>                 \* %raw%: raw content, here always a comment
+IsRaw(op) == op.name = bRaw
 IsImage(op) == op.name = bImage /\ Len(op.args) = 2 /\ op.args[1].t = "dict" /\ op.args[2].t = "str"
 
 RECURSIVE DecText(_)
@@ -55,8 +57,14 @@ ImplImageEntry(m, k) ==
   ELSE ImplImageKey(k) \o <<32>>
          \o (IF m[k].t = "null" THEN <<>> ELSE ImplFmt(<<m[k]>>, CS))   \* a nil entry is not a pdf.Native
          \o <<10>>
+EndsInWS(bs) == bs # <<>> /\ IsWS(bs[Len(bs)])
 ImplFormatOp(op) ==
-  IF op.name = bImage /\ Len(op.args) >= 2 THEN
+  IF op.name = bRaw THEN
+    \* the raw bytes and a line feed (a comment extends to the end of the line)
+    (IF Len(op.args) > 0 /\ op.args[1].t = "str"
+     THEN op.args[1].v \o (IF Mutation = "rawNoLF" /\ EndsInWS(op.args[1].v) THEN <<>> ELSE <<10>>)
+     ELSE <<>>)
+  ELSE IF op.name = bImage /\ Len(op.args) >= 2 THEN
     LET m0   == op.args[1].v
         data == op.args[2].v
         m    == IF WriterAddsLength /\ ~HasLength(m0) /\ Ambiguous(data)
@@ -140,14 +148,19 @@ NormOp(op) == IF IsImage(op) THEN MkOp(op.name, <<NormImageDict(op.args[1]), op.
 NormOps(ops) == [i \in 1..Len(ops) |-> NormOp(ops[i])]
 SameOps(a, b) == Len(a) = Len(b) /\ \A i \in 1..Len(a) : a[i].name = b[i].name /\ SameSeq(a[i].args, b[i].args)
 
-RoundTripOpsAt(ops) == SameOps(NormOps(RefScanOps(ImplFormatOps(ops))), NormOps(ops))
+\* 7.2.4: a comment (from % outside a string to the end of the line) is
+\* white space: raw content that is a comment - "%", then anything but an
+\* end-of-line marker, except at its end - denotes no operator
+DropRaw(ops) == SelectSeq(ops, LAMBDA o : ~IsRaw(o))
+Meaning(ops) == NormOps(DropRaw(ops))
+RoundTripOpsAt(ops) == SameOps(NormOps(RefScanOps(ImplFormatOps(ops))), Meaning(ops))
 \* read in one piece or split at operator boundaries into several streams
 RECURSIVE Cuts(_, _)    \* all ways to cut ops[from..] into consecutive non-empty pieces
 Cuts(ops, from) ==
   IF from > Len(ops) THEN {<<>>}
   ELSE UNION {{<<SubSeq(ops, from, to)>> \o rest : rest \in Cuts(ops, to + 1)} : to \in from..Len(ops)}
 SplitAt(ops) == \A c \in Cuts(ops, 1) :
-                  SameOps(NormOps(RefScanOps(JoinLF([i \in 1..Len(c) |-> ImplFormatOps(c[i])]))), NormOps(ops))
+                  SameOps(NormOps(RefScanOps(JoinLF([i \in 1..Len(c) |-> ImplFormatOps(c[i])]))), Meaning(ops))
 
 -----------------------------------------------------------------------------
 (* Nesting: state.go.  obj is the current graphics object, nest the stack of  *)
